@@ -23,6 +23,6 @@ func (i *LinearAnchoringEvaluator) Spec_BlankParams() FunctionParams {
 
 func (i *LinearAnchoringEvaluator) Spec_Evaluate(params FunctionParams, difference float64) float64 {
 	p := params.(*utils.LinearFunctionParameters)
-	res, _ := p.Evaluate(difference)
+	res, _ := p.Spec_Evaluate(difference)
 	return res
 }
